@@ -146,7 +146,7 @@ Proof.
   assert (Same : forall (st : state) (l : list action), st = s -> sumw wA l = 0 -> sumw wP l = 0 -> sumw wC l = 0 ->
             nA (allocs st) = nA (allocs s) + sumw wA l /\ nP (allocs st) = nP (allocs s) + sumw wP l /\
             nC (allocs st) = nC (allocs s) + sumw wC l) by (intros; subst; lia).
-  destruct e as [src tid c r unk|src p d|src n d|relay from d|dt|relay|csrc|]; cbn [step] in H.
+  destruct e as [src tid c r unk|src p d|src n d|relay from d|dt|relay|csrc| |]; cbn [step] in H.
   - destruct unk; [inv_pair H; apply Same; reflexivity|].
     destruct r as [tr lt fam df rp ep rt mt|lt fam|peers|n p|]; try (inv_pair H; apply Same; reflexivity);
       destruct (authenticate cfg s c) as [uid|code ch]; try (inv_pair H; apply Same; reflexivity).
@@ -206,6 +206,7 @@ Proof.
     destruct (close_events_w a) as (W1 & W2 & W3). destruct (remove_counts a (allocs s) Hnd Hin) as (R1 & R2 & R3). lia.
   - inv_pair H. cbn [allocs set_allocs]. destruct (close_all_w (allocs s)) as (W1 & W2 & W3).
     unfold nA at 1, nP at 1, nC at 1. cbn [length fold_right]. lia.
+  - inv_pair H. apply Same; reflexivity.
 Qed.
 
 (* over whole histories: callbacks announced so far balance exactly against what exists now *)
